@@ -1435,7 +1435,10 @@ func (e *CoreExtension) filterFirst(value interface{}, args ...interface{}) (int
 		return nil, nil
 	case reflect.Map:
 		for _, key := range sortedMapKeys(rv) {
-			return rv.MapIndex(key).Interface(), nil // Return first value in key order
+			if entry := rv.MapIndex(key); entry.IsValid() { // a NaN key finds no entry
+				return entry.Interface(), nil // Return first value in key order
+			}
+			return nil, nil
 		}
 		return nil, nil
 	}
@@ -2319,7 +2322,9 @@ func (e *CoreExtension) functionMerge(args ...interface{}) (interface{}, error) 
 			baseRv := reflect.ValueOf(base)
 			for _, key := range sortedMapKeys(baseRv) { // key order: keys with one string form collide the same way every time
 				keyStr := toString(key.Interface())
-				result[keyStr] = baseRv.MapIndex(key).Interface()
+				if entry := baseRv.MapIndex(key); entry.IsValid() { // a NaN key finds no entry
+					result[keyStr] = entry.Interface()
+				}
 			}
 		}
 
@@ -2336,7 +2341,9 @@ func (e *CoreExtension) functionMerge(args ...interface{}) (interface{}, error) 
 				if argRv.Kind() == reflect.Map {
 					for _, key := range sortedMapKeys(argRv) {
 						keyStr := toString(key.Interface())
-						result[keyStr] = argRv.MapIndex(key).Interface()
+						if entry := argRv.MapIndex(key); entry.IsValid() {
+							result[keyStr] = entry.Interface()
+						}
 					}
 				}
 			}
@@ -2395,7 +2402,11 @@ func sortedMapKeys(m reflect.Value) []reflect.Value {
 		case reflect.Uint, reflect.Uint8, reflect.Uint16, reflect.Uint32, reflect.Uint64, reflect.Uintptr:
 			return a.Uint() < b.Uint()
 		case reflect.Float32, reflect.Float64:
-			return a.Float() < b.Float()
+			af, bf := a.Float(), b.Float()
+			if af != af || bf != bf {
+				return af != af && bf == bf // NaN keys first: < is no order on them
+			}
+			return af < bf
 		case reflect.String:
 			return a.String() < b.String()
 		}
